@@ -198,8 +198,8 @@ func hostileManager(c *vf.Ctx) {
 		}
 		c.AddTLC(res)
 	}
-	run(1, "", map[string]string{"Kinds": "{0, 1, 2, 3, 4, 5, 6, 7, 9, 63}", "Sids": "{0, 1, 2, 5}", "Mids": "{0, 1, 2}", "Payloads": `{"empty", "x", "rpc", "garbage", "err7", "err9"}`})
-	run(2, "", map[string]string{"Kinds": "{1, 2, 4, 7, 9}", "Sids": "{1, 2}", "Mids": "{1, 2}", "Payloads": `{"x", "garbage"}`})
+	run(1, "", map[string]string{"Kinds": "{0, 1, 2, 3, 4, 5, 6, 7, 9, 63}", "Sids": "{0, 1, 2}", "Mids": "{0, 1}", "Payloads": `{"empty", "rpc", "garbage", "err7"}`})
+	run(2, "", map[string]string{"Kinds": "{1, 2, 4, 7, 9}", "Sids": "{1, 2}", "Mids": "{1}", "Payloads": `{"x"}`})
 	nsim := 30
 	if !c.Quick() {
 		nsim = 600
@@ -305,7 +305,7 @@ func subHostile(args []string) int {
 			sp.PeerEOF()
 			select {
 			case <-done:
-			case <-time.After(3 * time.Second):
+			case <-time.After(1500 * time.Millisecond):
 				status = "hang"
 				sp.Fail()
 			}
@@ -324,14 +324,14 @@ func subHostile(args []string) int {
 			cp.PeerEOF()
 			select {
 			case <-res:
-			case <-time.After(3 * time.Second):
+			case <-time.After(1500 * time.Millisecond):
 				status = "hang"
 			}
 			cdone := make(chan struct{})
 			go func() { _ = conn.Close(); close(cdone) }()
 			select {
 			case <-cdone:
-			case <-time.After(3 * time.Second):
+			case <-time.After(1500 * time.Millisecond):
 				status = "hang"
 			}
 		}
